@@ -182,6 +182,17 @@ H_New(e) ==
             /\ Chk("C02", "new_allocs", e, AL(e) <= 1 /\ (e.cap = 0 => AL(e) = 0))
             /\ DropsAre(e, {})
 
+\* HashMap::new / with_capacity(n) / HashSet::new / with_capacity(n) (default hasher), on a throw-away
+\* collection: capacity() >= n, then n insertions without reallocation, all found
+H_NewDflt(e) ==
+    /\ Frame(e, {})
+    /\ NoPanic(e)
+    /\ (~Panicked(e)) =>
+         /\ Chk("C10", "with_capacity_default_hasher", e,
+                e.res.t = "newd" /\ e.res.cap0 >= e.ncap /\ (e.ncap = 0 => (e.res.cap0 = 0 /\ e.res.al0 = 0)) /\ e.res.al0 <= 1)
+         /\ Chk("C10", "with_capacity_then_n_insertions_without_reallocation", e,
+                e.res.t = "newd" => (e.res.len = e.ncap /\ e.res.al1 = 0 /\ e.res.cap1 >= e.res.cap0 /\ e.res.all = 1))
+
 H_Insert(e) ==
     LET s == e.s IN
     /\ Frame(e, {s})
@@ -923,6 +934,7 @@ H_Serde(e) ==
 (***************************************************************************)
 Dispatch(e) ==
     CASE e.op = "New" -> H_New(e)
+      [] e.op = "NewDflt" -> H_NewDflt(e)
       [] e.op = "Insert" -> H_Insert(e)
       [] e.op = "Get" -> H_Get(e)
       [] e.op \in {"Remove", "RemoveEntry"} -> H_Remove(e)
@@ -958,7 +970,11 @@ LeakOf(e) ==
           \* the main table, and the old one unless a next() call already went past its last
           \* element (RawDrain drops the exhausted old-table iterator, freeing that table)
           allocs |-> (IF Pre(e.s).mB > 1 THEN 1 ELSE 0)
-                     + (IF IsSplit(Pre(e.s)) /\ Len(e.yield) <= Pre(e.s).oI THEN 1 ELSE 0)]
+                     \* (a call that found the old-table iterator exhausted: either it yielded a main-table element,
+                     \* or -- main table empty -- it was the call that returned None)
+                     + (IF IsSplit(Pre(e.s)) /\ ~(Len(e.yield) > Pre(e.s).oI
+                                                  \/ (Len(e.yield) = Pre(e.s).oI /\ (HasF(e, "take") => e.take > Len(e.yield))))
+                        THEN 1 ELSE 0)]
     ELSE IF Faulted(e) /\ e.fault.fired = 1 /\ e.op = "CloneFrom"
     THEN \* "an interrupted clone_from ... possibly leaking clones"
          [ids |-> ToSet(e.led.new) \ (AllIds(e.st) \cup ToSet(e.led.drop)), allocs |-> 0]
